@@ -70,10 +70,27 @@ func TestProp_UpperBound(t *testing.T) {
 		pattern := rapid.SampledFrom([]string{"fixed", "bimodal", "by-id"}).Draw(rt, "bodyPattern")
 		baseUs := rapid.SampledFrom([]int{0, 200, 2000, 20000}).Draw(rt, "bodyMicros")
 		p := newProbe()
+		// in a third of the cases an iteration is not over when its body returns: it registered a cleanup
+		// that takes a while, and the handle is the iteration's own until that cleanup is through
+		cleanupUs := rapid.SampledFrom([]int{0, 0, 0, 200, 3000, 15000}).Draw(rt, "cleanupMicros")
 		scenario := func(*f1testing.T) f1testing.RunFn {
 			return func(it *f1testing.T) {
 				p.enter(it, shape.Concurrency)
-				defer p.leave(it)
+				if cleanupUs > 0 {
+					mine := it.Iteration
+					defer p.inFlight.Add(-1) // the bound is on executing iteration FUNCTIONS
+					it.Cleanup(func() {
+						time.Sleep(time.Duration(cleanupUs) * time.Microsecond)
+						p.mu.Lock()
+						if now := it.Iteration; now != mine && len(p.problems) < 5 {
+							p.problems = append(p.problems, fmt.Sprintf("the handle of iteration %s was re-labelled %q while that iteration's cleanup was still running", mine, now))
+						}
+						delete(p.live, it)
+						p.mu.Unlock()
+					})
+				} else {
+					defer p.leave(it)
+				}
 				id, _ := strconv.ParseUint(it.Iteration, 10, 64)
 				d := time.Duration(baseUs) * time.Microsecond
 				switch pattern {
@@ -112,7 +129,10 @@ func TestProp_UpperBound(t *testing.T) {
 		if pressed {
 			cls = append(cls, "bound-pressed")
 		}
-		stats.Case("upper", shape.Desc+pattern+fmt.Sprint(baseUs), pressed, cls, func() any {
+		if cleanupUs > 0 {
+			cls = append(cls, "handle-held-through-a-cleanup")
+		}
+		stats.Case("upper", shape.Desc+pattern+fmt.Sprint(baseUs, cleanupUs), pressed, cls, func() any {
 			return map[string]any{"shape": shape.Desc, "body": pattern, "bodyMicros": baseUs, "high_water": hw, "iterations": p.entries.Load()}
 		})
 		p.mu.Lock()
@@ -181,6 +201,9 @@ func TestProp_Rendezvous(t *testing.T) {
 		spec.Opts.Concurrency = conc
 		spec.Opts.MaxDuration = 5 * time.Second
 		spec.Opts.IgnoreDropped = true
+		// an iteration limit far out of reach takes no worker away
+		limit := rapid.SampledFrom([]uint64{0, 0, 0, 1 << 40, 1<<63 - 1, 1 << 63, 1<<64 - 1}).Draw(rt, "maxIterations")
+		spec.Opts.MaxIterations = limit
 		if _, err := vlib.Execute(spec); err != nil {
 			rt.Fatalf("VERIF-INFRA: cannot execute %s %v: %v", mode, flags, err)
 		}
@@ -190,8 +213,12 @@ func TestProp_Rendezvous(t *testing.T) {
 			opened = true
 		default:
 		}
-		desc := fmt.Sprintf("%s c=%d first-tick=%d flags=%v", mode, conc, first, flags)
-		stats.Case("rendezvous", desc, true, []string{"mode-" + mode}, func() any {
+		desc := fmt.Sprintf("%s c=%d first-tick=%d flags=%v max-iterations=%d", mode, conc, first, flags, limit)
+		rcls := []string{"mode-" + mode}
+		if limit >= 1<<62 {
+			rcls = append(rcls, "limit-around-2^63-or-2^64")
+		}
+		stats.Case("rendezvous", desc, true, rcls, func() any {
 			return map[string]any{"case": desc, "barrier_opened": opened, "high_water": p.highWater.Load()}
 		})
 		p.mu.Lock()
